@@ -10,12 +10,18 @@ TECH = 'CBMC code contracts injected into the real sources every run (goto-instr
 
 CLAIMED = {
     # id: (level text, level note)
-    'C08': ('Each decoding entry point under contract is proved, for all input bytes, lengths, capacities and '
-            'scalar arguments, to access only the two declared objects, to terminate (decreases clauses) and to '
-            'report a size <= capacity; callees are replaced by their own proved contracts.',
-            'Trusted: CBMC, its memory model (objects <= 2^40 bytes), memcpy/memset contract stubs, zlib/zstd '
-            'assumed contracts; pointer-relation idiom p+n>end not counted (A3). Functions not yet under contract '
-            'are listed in DESIGN.md section 10.'),
+    'C08': ('Every decoding entry point under contract is proved, for all input bytes, declared sizes, capacities, counts (negative and huge '
+            'included) and bit widths 0..255, to read only inside the input, write only inside the declared output, terminate '
+            '(decreases clause per loop) and report a size <= capacity or an error: Snappy / LZ4 decompress, RLE hybrid decoders '
+            '(streaming get/get_batch/skip under a decoder representation invariant, decode_all, decode_levels, prefixed), 8-group and '
+            'group-loop bit unpackers, varint decoders, bit reader, all PLAIN decoders and the dispatcher, BYTE_STREAM_SPLIT decoders, '
+            'dictionary decoders, DELTA_BINARY_PACKED / DELTA_LENGTH / DELTA_BYTE_ARRAY decoders, Thrift reader primitives and thrift_skip, '
+            'page-header and metadata sub-parsers, gzip/zstd wrapper logic. Callees are replaced by their own contracts.',
+            'Trusted: CBMC, its memory model (objects <= 2^40 bytes), memcpy/memset contract stubs, zlib/zstd assumed contracts, the '
+            'assumed contracts listed per job in evidence (e.g. bit unpackers inside the RLE/delta jobs, proved in the bitpack jobs). '
+            'Pointer-relation idiom p+n>end not counted (A3). Bounded jobs (fixed widths, small counts) are reported under coverage.bounded. '
+            'Functions still without a closed job (list-fill loops of parse_row_group / parse_column_metadata / parse_file_metadata, '
+            'SSE path of decode_levels) are named in DESIGN.md section 10.'),
 }
 
 CLAIMED['C20'] = (
@@ -65,9 +71,9 @@ NA = {
     'C07': 'CBMC contract machinery is sequential (OpenMP pragmas dropped, no schedule quantifier)',
 }
 
-ENABLE = []   # properties whose checks pass on the unchanged tree (filled in as families are integrated)
+ENABLE = ['C02', 'C04', 'C11', 'C12', 'C13', 'C14', 'C16', 'C17', 'C18', 'C19']   # properties whose checks pass on the unchanged tree (filled in as families are integrated)
 
-PENDING = ['C02', 'C04', 'C09', 'C10', 'C11', 'C12', 'C13', 'C14', 'C15', 'C16', 'C17', 'C18', 'C19']
+PENDING = ['C09', 'C10', 'C15']
 
 
 ENABLED = sorted(set(list(CLAIMED) + [p for p in TEXTS if os.path.exists(os.path.join(ROOT, 'evidence', p + '.json.ok'))]))
